@@ -317,6 +317,9 @@ func (m *monC12) ref(w *World, node int) *RefPremium {
 func ownFeeEstimate(w *World, node int, chain string) uint64 {
 	if chain == "btc" {
 		kw := w.Plan.Scn.BtcFeePerKw[node]
+		if w.Nodes[node].ext.maxFeeKw > kw {
+			kw = w.Nodes[node].ext.maxFeeKw
+		}
 		if kw < 253 {
 			kw = 253
 		}
